@@ -361,6 +361,12 @@ pub struct E1Outcome {
 
 /// Builds `cfg` (uncached, with the minimizer recorder on) and runs the C02 and/or C03 products.
 pub fn check_cfg(cfg: &Cfg, t: &AtomTables, do02: bool, do03: bool, conform: bool, memoize_impl: bool) -> E1Outcome {
+    check_cfg_with(cfg, t, do02, do03, conform, memoize_impl, None)
+}
+
+/// Like [`check_cfg`]; `blocks_override` supplies a partition that is at least as fine as the one
+/// the scanner's own classes induce (computed once for a whole family with a fixed class menu).
+pub fn check_cfg_with(cfg: &Cfg, t: &AtomTables, do02: bool, do03: bool, conform: bool, memoize_impl: bool, blocks_override: Option<Arc<Blocks>>) -> E1Outcome {
     let mut out = E1Outcome::default();
     let spec = match cfg.to_spec() {
         Ok(s) => s,
@@ -394,7 +400,10 @@ pub fn check_cfg(cfg: &Cfg, t: &AtomTables, do02: bool, do03: bool, conform: boo
             }
         }
     }
-    let blocks = blocks_for(&sc, &dump, &regexes, t, memoize_impl);
+    let blocks = match blocks_override {
+        Some(b) => b,
+        None => blocks_for(&sc, &dump, &regexes, t, memoize_impl),
+    };
     out.blocks = blocks.reps.len();
     let cm = class_matrix(&sc, dump.classes.len(), &blocks);
     if do02 {
